@@ -154,9 +154,11 @@ def gen_calls(ctx, rng, n):
     return out
 
 
-def sentence(rng, text):
+def sentence(rng, text, parts=None):
     pre = " ".join(rng.choice(G.FILLER) for _ in range(rng.randint(0, 3)))
     post = " ".join(rng.choice(G.FILLER) for _ in range(rng.randint(0, 3)))
+    if parts is not None:
+        parts.extend([pre, post])
     return (pre + " " if pre else "") + text + (" " + post if post else "")
 
 
@@ -269,7 +271,8 @@ def oracle(ctx):
                 inner = text + zt
                 d = rng.choice(G.DEFAULTS)
                 strict, _, rs = L.run_impl(L.Call(inner, default=d), raw=True)
-                s = sentence(rng, inner)
+                parts = []
+                s = sentence(rng, inner, parts)
                 fz, _, rf = L.run_impl(L.Call(s, default=d, fuzzy=True), raw=True)
                 ft, _, rt = L.run_impl(L.Call(s, default=d, fwt=True), raw=True)
                 f2, _, _ = L.run_impl(L.Call(inner, default=d, fuzzy=True))
@@ -293,6 +296,13 @@ def oracle(ctx):
                             ctx.violation("fuzzy_with_tokens: skipped text must appear in order", case, {"tokens": list(rt[1])})
                             break
                         pos = j + len(tok)
+                    # the filler around the date is skipped text: all of it must come back
+                    joined = "|".join(rt[1])
+                    for part in parts:
+                        if part and part not in joined:
+                            ctx.violation("fuzzy_with_tokens: skipped text is missing from the tokens", case,
+                                          {"tokens": list(rt[1]), "missing": part})
+                            break
             # strict ⊆ fuzzy on the malformed stream (and the D-C15 witness family)
             for _ in range(ctx.budget(4000, 40000)):
                 t = G.malformed(rng) if rng.random() < 0.985 else \
